@@ -148,8 +148,10 @@ func (sc *SearchCache) generateCacheKey(query string, options SearchOptions) str
 	if err != nil {
 		// JSON cannot render NaN / Inf boosts. The fallback key must still cover every
 		// option (fmt prints maps in sorted key order), or requests differing in them
-		// would share one entry.
-		return fmt.Sprintf("%s%s:%+v", sc.keyPrefix, normalizedQuery, options)
+		// would share one entry. Strings are quoted: unquoted, the platform lists
+		// ["linux macos"] and ["linux" "macos"] (or boost words holding ':' and blanks)
+		// would render alike.
+		return fmt.Sprintf("%s%q:%#v", sc.keyPrefix, normalizedQuery, options)
 	}
 
 	// Generate SHA256 hash for compact key (more secure than MD5)
